@@ -28,7 +28,10 @@ type Session struct {
 	rec     *Recorder
 	seq     int
 	// Calls is the number of request calls made so far
-	Calls int
+	Calls     int
+	dials     int
+	curStream []byte
+	curEvents []xport.Event
 }
 
 // NewSession creates and connects a network client (TCP or RTUNet) with the given total read timeout; with hooks, a Recorder is
@@ -64,6 +67,12 @@ func NewSessionWith(kind string, readTimeoutMs int, hooks, explicitParser bool) 
 	}
 	conf := modbus.ClientConfig{ReadTimeout: rt, WriteTimeout: time.Second,
 		DialContextFunc: func(ctx context.Context, address string) (net.Conn, error) {
+			s.dials++
+			if s.dials > 1 {
+				// a client that dials again on its own finds the same device: the connection behaves as the current call's did, from the start
+				again := &xport.Script{Stream: append([]byte(nil), s.curStream...), Events: append([]xport.Event(nil), s.curEvents...), IdleKind: "timeout"}
+				return &xport.ScriptConn{S: again}, nil
+			}
 			return &xport.ScriptConn{S: s.script}, nil
 		}}
 	if hooks {
@@ -134,6 +143,7 @@ func Readdress(q packet.Request, tx uint16, unit uint8) bool {
 // CallWith is Call with a request object the caller keeps (and may have modified since the last call).
 func (s *Session) CallWith(q packet.Request, stream []byte, events []xport.Event) (out Outcome) {
 	out.Request, out.ReqBytes = q, append([]byte(nil), q.Bytes()...)
+	s.curStream, s.curEvents = stream, events
 	s.script.Reset(append([]byte(nil), stream...), append([]xport.Event(nil), events...), false)
 	if s.rec != nil {
 		s.rec.Calls = nil
